@@ -258,9 +258,7 @@ example : GoodAuthority eC s0 :=
       query := "k=v".toStr, fragment := "f".toStr }
     { user := some "Us".toStr, password := some "p.w".toStr, host := some "FE80::1%eth0".toStr, port := some 8080 }
     rfl rfl
-    ⟨C09_good_user _ _ (by
-        intro s hs; injection hs with hs; subst hs
-        exact ⟨by decide, 85, by decide, by decide⟩),
+    ⟨(by intro s hs; cases hs; decide),
      C09_good_host_ipv6 _ _ [0xfe80, 0, 0, 0, 0, 0, 0, 1] (by decide +kernel) (by decide) (by decide)⟩
 
 -- the remaining C09 finding "[[::1]" is outside `GoodAuthority`, but its twin still prints (the stored
